@@ -158,7 +158,7 @@ fn scripted() -> Result<(World, Vec<usize>), Fail> {
         Chan { id: 1, kind: Kind::Ordered, max_mem: 100_000, resend_ms: 100 },
         Chan { id: 2, kind: Kind::Unordered, max_mem: 100_000, resend_ms: 100 },
     ];
-    let cfg = WorldCfg { bytes_per_tick: 1_000_000, s2c: chans.clone(), c2s: chans, n_clients: 2 };
+    let cfg = WorldCfg { bytes_per_tick: 1_000_000, s2c: chans.clone(), c2s: chans, n_clients: 2, id_scheme: 0 };
     let mut w = World::new(cfg, Oracles { content: true, memory: true, exclude_clients: vec![0], ..Default::default() });
     let d = Dir { client: 0, to_client: true };
     // bystander traffic
